@@ -9,6 +9,7 @@
                  or exactly its bytes, and every acknowledged object (C12: every crash point of this run);
      PropOK      the real read-back after the end / kill of the process satisfies the same statement, iteration
                  lists exactly the readable objects, temporary files never show up and are gone after CleanUpTmp;
+                 every Put retried on the restarted tree (before any clean-up) that reports success is readable;
      PredOK      the read-back is what the model predicts for the state at the end (binding of the crash model;
                  a mismatch is model drift, not a verdict);
      ExitOK      the process ended normally and answered every operation (C13: no panic, no hang), or was
@@ -148,9 +149,15 @@ PassOK(p, ack) ==      \* one read-back pass satisfies the property
   /\ \A a \in 1..nn : /\ p.res[a] \in {0, 1} /\ (a \in ack => p.res[a] = 1)
                       /\ p.it[a] = p.res[a] /\ p.ita[a] = p.res[a]
 Verify(e) ==
-  /\ okProp' = /\ PassOK(e.before, acked) /\ PassOK(e.after, acked)
+  \* before: right after the restart; retry: every Put of the job repeated on the restarted tree (no clean-up yet) -
+  \* a Put that reports success must be readable, whatever the crashed run left behind; after: after CleanUpTmp
+  /\ okProp' = /\ PassOK(e.before, acked)
+               /\ Len(e.retry.put) = nn
+               /\ PassOK(e.retry, acked \cup {a \in 1..nn : e.retry.put[a] = "ok"})
+               /\ \A a \in 1..nn : e.retry.put[a] \in {"ok", "err"}
+               /\ PassOK(e.after, acked)
                /\ e.cleanup = "ok" /\ e.after.tmpfiles = 0
-               /\ \A a \in 1..nn : e.after.res[a] = e.before.res[a]
+               /\ \A a \in 1..nn : e.after.res[a] = e.retry.res[a]
   /\ okPred' = \A a \in (1..nn) \ fuzzy : e.before.res[a] = ReadName(dir, ino, a)
   /\ dir' = CleanTmpFS(dir)
   /\ UNCHANGED <<ino, fdt, nn, szlim, acked, inflight, fuzzy, fdsize, fdmem, fdtimed, blame, openFails, expPanic, expHang,
